@@ -3,6 +3,7 @@ package gprops
 import (
 	"fmt"
 	"net"
+	"path/filepath"
 	"strings"
 	"time"
 
@@ -315,8 +316,15 @@ func C17(args []string) {
 			r.Sample(map[string]any{"scenario": sc.describe(), "schedules": e.Execs, "bound_completed": completed, "max_choice_points": e.MaxPoints})
 		}
 	}, core.ShardOpts{Watchdog: 600 * time.Second})
+	// the free-running race-detector pass runs in the plain binary (real runtime, un-rewritten fbb)
+	if !r.IsChild() {
+		if died, kind, tail := r.RunForeign(filepath.Join(core.Root, "bin", "vcheck"), "C17race", nil, 30*time.Minute); died {
+			core.Infra("C17 free-running part failed (%s): %s", kind, core.Trunc(tail, 1500))
+		}
+	}
 	add := r.Added()
 	r.Finish(core.Coverage{
+		"free_running_race_detector_exchanges": add["free_running_exchanges"], "free_running_pass_skipped": add["free_running_pass_skipped"],
 		"states":                        add["states"],
 		"transitions":                   add["visible_steps"],
 		"traces_validated_against_impl": add["replayed_identically"],
@@ -326,5 +334,6 @@ func C17(args []string) {
 	}, []string{
 		"race oracle: happens-before (vector clocks) over the accesses the rewriter instruments - package-level variables and locals captured by go-closures (exactly where the transfer buffers live); struct fields reached through pointers handed to other functions are not tracked",
 		"CHESS-mode exploration with iterative preemption bounding plus timer-first deviations; the 250 ms ticker runs on virtual time",
+		"supplementary, not deciding: the same harness bodies run free on the real runtime under Go's race detector (verif/racecheck; 78 exchanges per round, 1 round quick / 12 thorough); a report there is a violation, silence there decides nothing",
 	})
 }
